@@ -694,115 +694,175 @@ def rule_objective_and_distances(repo, rep):
   else:
     rep.unknown(R, k2, site(g), 'selection of the active bases not found')
   # dist_diff
-  h = astutil.inline_helpers(repo,
-                             repo.get_func('scml._BaseSCML._compute_dist_diff'))
-  rep.analysed(getattr(h, 'orig', h))
-  k3 = 'scml._BaseSCML._compute_dist_diff:'
-  # roles by structure: return A[I[:n]] - A[I[n:]]; A's definition names the
-  # projected points
-  roles = {}
-  for r_ in [r for r in h.node.body if isinstance(r, ast.Return)][-1:]:
-    v_ = r_.value
-    if isinstance(v_, ast.BinOp) and isinstance(v_.left, ast.Subscript) and \
-            isinstance(v_.left.value, ast.Name) and \
-            isinstance(v_.left.slice, ast.Subscript) and \
-            isinstance(v_.left.slice.value, ast.Name):
-      roles[v_.left.value.id] = 'dist'
-      roles[v_.left.slice.value.id] = 'indices'
-      sl_ = v_.left.slice.slice
-      if isinstance(sl_, ast.Slice) and isinstance(sl_.upper, ast.Name):
-        roles[sl_.upper.id] = 'n_triplets'
-      for (n__, dv) in guards.assignments(h.node, v_.left.value.id):
-        if dv is None:
-          continue
-        for x in ast.walk(dv):
-          if isinstance(x, ast.Subscript) and isinstance(x.value, ast.Name) \
-                  and isinstance(x.slice, (ast.Tuple, ast.Subscript)):
-            inner = x.slice.elts[0] if isinstance(x.slice, ast.Tuple) \
-                else x.slice
-            if isinstance(inner, ast.Subscript) and \
-                    isinstance(inner.value, ast.Name):
-              roles.setdefault(x.value.id, 'XB')
-              roles.setdefault(inner.value.id, 'uniqPairs')
-  params_ = set(h.params())
-  roles = dict((k, v) for k, v in roles.items() if k not in params_)
-  hv = astutil.role_view(h, roles) if roles else h
-  if hv is not None:
-    h = hv
-  ret = [r for r in h.node.body if isinstance(r, ast.Return)]
-  if not ret:
-    rep.unknown(R, k3 + 'return', site(h), 'no return')
+  _dist_diff_interp(repo, rep, R)
+
+
+def _dist_diff_interp(repo, rep, R):
+  """_compute_dist_diff(triplets, X, basis) interpreted on symbolic tokens:
+  the result is, for every triplet (a, p, n) and basis element b,
+  ((x_a - x_p) . b)^2 - ((x_a - x_n) . b)^2"""
+  from ..minterp import Interp, World, Undecided
+  from .c07b import S, tg
+  h = repo.get_func('scml._BaseSCML._compute_dist_diff')
+  rep.analysed(h)
+  key = 'scml._BaseSCML._compute_dist_diff'
+  N = 5
+  full = slice(None, None, None)
+
+  class W(World):
+    def __init__(self):
+      self.flags = []
+
+    def attr(self, it, v, attr, node):
+      if v == S('basis') and attr == 'T':
+        return S('basisT')
+      if v == S('T') and attr == 'shape':
+        return (N, 3)
+      if tg(v) in ('stack', 'sorted') and attr == 'shape':
+        return (N * len(v[1]), 2)
+      return NotImplemented
+
+    def _mm(self, a, b):
+      if a == S('X') and b == S('basisT'):
+        return S('XB')
+      if (a == S('X') and b == S('basis')) or \
+              (a == S('basis') and b == S('X')):
+        self.flags.append('the points are projected by X.basis instead of '
+                          'X.basis^T')
+        return S('XB')
+      return NotImplemented
+
+    def binop(self, it, op, a, b, node):
+      if isinstance(op, ast.MatMult):
+        return self._mm(a, b)
+      if isinstance(op, (ast.Sub, ast.Add)):
+        if tg(a) == 'proj' and tg(b) == 'proj' and a[1] == b[1] and \
+                {a[2], b[2]} == {0, 1}:
+          return S('pdiff', a[1], isinstance(op, ast.Sub))
+        if tg(a) == 'projcol' and tg(b) == 'projcol':
+          return S('pd', tuple(sorted((a[1], b[1]))), isinstance(op, ast.Sub))
+        if tg(a) == 'd' and tg(b) == 'd':
+          return S('diff', a[1], b[1], isinstance(op, ast.Sub))
+      if isinstance(op, ast.Pow) and b == 2:
+        return self._sq(a)
+      if isinstance(op, ast.Mult) and a == b:
+        return self._sq(a)
+      return NotImplemented
+
+    def _sq(self, a):
+      if tg(a) in ('pdiff', 'pd') and not a[2]:
+        self.flags.append('the projections of the two points of a pair are '
+                          'added, not subtracted')
+      if tg(a) == 'pdiff':
+        return S('sq', a[1], True)
+      if tg(a) == 'pd':
+        return S('d', a[1])
+      return NotImplemented
+
+    def subscript(self, it, base, idx, node):
+      if base == S('T') and isinstance(idx, tuple) and len(idx) == 2 and \
+              idx[0] == full:
+        if isinstance(idx[1], list) and len(idx[1]) == 2:
+          return S('cols', tuple(idx[1]))
+        if isinstance(idx[1], int):
+          return S('col', idx[1])
+        if isinstance(idx[1], slice) and idx[1].step is None:
+          lo, hi = idx[1].start or 0, idx[1].stop
+          if hi is not None and hi - lo == 2:
+            return S('cols', (lo, lo + 1))
+      if tg(base) == 'uniq' and isinstance(idx, tuple) and \
+              idx[0] == full and idx[1] in (0, 1):
+        return S('ucol', base[1], idx[1])
+      if base == S('XB'):
+        i0 = idx[0] if isinstance(idx, tuple) else idx
+        rest = idx[1:] if isinstance(idx, tuple) else ()
+        if all(x == full for x in rest):
+          if tg(i0) == 'ucol':
+            return S('proj', i0[1], i0[2])
+          if tg(i0) == 'col':
+            return S('projcol', i0[1])
+      if tg(base) == 'inv' and isinstance(idx, slice) and idx.step is None:
+        nb = len(base[1])
+        if idx.start is None and idx.stop == N:
+          return S('invpart', base[1], 0)
+        if idx.start == N and idx.stop is None and nb == 2:
+          return S('invpart', base[1], 1)
+        if idx.start == N and idx.stop == 2 * N and nb == 2:
+          return S('invpart', base[1], 1)
+        return S('invpart-bad', idx.start, idx.stop)
+      if tg(base) == 'sq' and tg(idx) == 'invpart':
+        if base[1] != idx[1]:
+          return NotImplemented
+        blk = base[1][idx[2]]
+        return S('d', tuple(sorted(blk)))
+      return NotImplemented
+
+    def call(self, it, d, recv, args, kwargs, node):
+      if d == 'len' and args and args[0] == S('T'):
+        return N
+      if d.startswith('.'):
+        if d == '.dot' and len(args) == 1:
+          return self._mm(recv, args[0])
+        return NotImplemented
+      short = d.rsplit('.', 1)[-1]
+      if not d.startswith('numpy.'):
+        return NotImplemented
+      if short in ('matmul', 'dot') and len(args) == 2:
+        return self._mm(args[0], args[1])
+      if short in ('vstack', 'concatenate') and len(args) == 1 and \
+              isinstance(args[0], (tuple, list)) and \
+              all(tg(x) == 'cols' for x in args[0]) and \
+              kwargs.get('axis', 0) == 0:
+        return S('stack', tuple(x[1] for x in args[0]))
+      if short == 'sort' and args and tg(args[0]) == 'stack':
+        ax = kwargs.get('axis', args[1] if len(args) > 1 else -1)
+        if ax in (-1, 1):
+          return args[0]       # order inside a pair: irrelevant for squares
+        return S('scrambled')
+      if short == 'unique' and args and tg(args[0]) == 'stack' and \
+              kwargs.get('axis') == 0 and kwargs.get('return_inverse') and \
+              set(kwargs) == {'axis', 'return_inverse'}:
+        return (S('uniq', args[0][1]), S('inv', args[0][1]))
+      if short in ('square',) and len(args) == 1:
+        return self._sq(args[0])
+      if short == 'power' and len(args) == 2 and args[1] == 2:
+        return self._sq(args[0])
+      if short == 'subtract' and len(args) == 2:
+        return self.binop(it, ast.Sub(), args[0], args[1], node)
+      return NotImplemented
+  ps = h.params()
+  if len(ps) != 4:
+    rep.unknown(R, key, site(h), 'parameters %s' % ps)
     return
-  un = astutil.unfold(ret[-1].value, h.node.body, ret[-1],
-                      stop=('dist', 'indices', 'n_triplets'))
-  t = ast.unparse(un).replace(' ', '')
-  names = {}
-  if isinstance(un, ast.BinOp) and isinstance(un.op, (ast.Sub, ast.Add)):
-    import re as _re
-    m1 = _re.match(r'^(\w+)\[(\w+)\[:(.+)\]\]$',
-                   ast.unparse(un.left).replace(' ', ''))
-    m2 = _re.match(r'^(\w+)\[(\w+)\[(.+):\]\]$',
-                   ast.unparse(un.right).replace(' ', ''))
-    if m1 and m2 and m1.groups() == m2.groups():
-      if isinstance(un.op, ast.Sub):
-        rep.derived(R, k3 + 'difference', site(h, ret[-1]))
-      else:
-        rep.refuted(R, k3 + 'difference', site(h, ret[-1]), 'dist_diff is '
-                    'the SUM %s of the positive-pair and negative-pair '
-                    'distances' % ast.unparse(un))
-      names = dict(dist=m1.group(1), indices=m1.group(2), n=m1.group(3))
-    else:
-      rep.unknown(R, k3 + 'difference', site(h, ret[-1]), 'return %s not '
-                  'recognised' % ast.unparse(un))
+  try:
+    w = W()
+    out = Interp(repo, h, w).run({ps[0]: S('self'), ps[1]: S('T'),
+                                  ps[2]: S('X'), ps[3]: S('basis')})
+  except Undecided as u:
+    rep.unknown(R, key, site(h), str(u))
+    return
+  if out[0] == 'raise':
+    rep.refuted(R, key, site(h, out[2]), 'raises %s' % out[1][0])
+    return
+  res = out[1]
+  if w.flags:
+    rep.refuted(R, key, site(h), w.flags[0])
+  elif res == S('diff', (0, 1), (0, 2), True):
+    rep.derived(R, key, site(h), sample=dict(
+        rule=R, result='d(anchor, positive) - d(anchor, negative) per basis '
+        'element'))
+  elif tg(res) == 'diff':
+    rep.refuted(R, key, site(h), 'dist_diff is d%s %s d%s of the squared '
+                'projections on the basis, documented d(0, 1) - d(0, 2) '
+                '(anchor-positive minus anchor-negative)' % (
+                    res[1], '-' if res[3] else '+', res[2]))
   else:
-    rep.unknown(R, k3 + 'difference', site(h, ret[-1]), 'return %s not '
-                'recognised' % ast.unparse(un))
-  if names:
-    dd = [v for (n_, v) in guards.assignments(h.node, names['dist'])
-          if v is not None]
-    dtxt = ast.unparse(dd[0]).replace(' ', '') if dd else ''
-    import re as _re
-    m = _re.match(r'^(?:np\.square\((\w+)\[(\w+)\[:,0\](?:,:)?\]-'
-                  r'\1\[\2\[:,1\](?:,:)?\]\)|'
-                  r'\((\w+)\[(\w+)\[:,0\](?:,:)?\]-\3\[\4\[:,1\](?:,:)?\]\)\*\*2)$',
-                  dtxt)
-    if m:
-      rep.derived(R, k3 + 'squared-projection', site(h))
-      xb = m.group(1) or m.group(3)
-      xd = [v for (n_, v) in guards.assignments(h.node, xb) if v is not None]
-      xt = ast.unparse(xd[0]).replace(' ', '') if xd else ''
-      okx = xt in ('np.matmul(X,basis.T)', 'X.dot(basis.T)', 'X@basis.T')
-      badx = xt in ('np.matmul(X,basis)', 'X.dot(basis)', 'X@basis',
-                    'np.matmul(basis.T,X)', 'basis.T.dot(X)')
-      rep.add(R, k3 + 'projection', 'derived' if okx else 'refuted' if badx
-              else 'unknown', site(h), '' if okx else 'the points are '
-              'projected by %s, documented X basis^T' % xt)
-    elif '+' in dtxt and 'square' in dtxt or '+' in dtxt and '**2' in dtxt:
-      rep.refuted(R, k3 + 'squared-projection', site(h), 'pair distances '
-                  'are %s: the projections of the two points are ADDED'
-                  % dtxt)
+    # forms that are understood and different
+    txt = repr(res)
+    if any(k in txt for k in ('scrambled', 'invpart-bad')):
+      rep.refuted(R, key, site(h), 'dist_diff evaluates to %s' % txt)
     else:
-      rep.unknown(R, k3 + 'squared-projection', site(h), 'pair distances '
-                  '%s not recognised' % dtxt)
-    # first half of the stacked pairs = (anchor, positive), second half =
-    # (anchor, negative)
-    src = ast.unparse(h.node)
-    stk = [c for c in astutil.calls_in(h.node)
-           if canon(repo.dotted(h.module, c.func) or '') ==
-           canon('numpy.vstack') and c.args and
-           isinstance(c.args[0], (ast.Tuple, ast.List)) and
-           len(c.args[0].elts) == 2]
-    if stk:
-      a, b = [ast.unparse(x).replace(' ', '') for x in stk[0].args[0].elts]
-      okp = (a, b) == ('triplets[:,[0,1]]', 'triplets[:,[0,2]]')
-      badp = (a, b) == ('triplets[:,[0,2]]', 'triplets[:,[0,1]]')
-      rep.add(R, k3 + 'pair-order', 'derived' if okp else 'refuted' if badp
-              else 'unknown', site(h, stk[0]), '' if okp else 'stacked pairs '
-              '%s then %s, documented (anchor, positive) then (anchor, '
-              'negative)' % (a, b))
-    else:
-      rep.unknown(R, k3 + 'pair-order', site(h), 'stacking of the pairs not '
-                  'found')
+      rep.unknown(R, key, site(h), 'dist_diff evaluates to %s' % txt)
 
 
 def check(repo, rep, tier):
